@@ -304,6 +304,8 @@ pub fn run(tier: &str, seed: u64, out: &Path) -> i32 {
         let mut r = Rng::new(seed ^ 0x1157);
         crate::strings_corr::cases_c02(&mut o, &mut r, tier == "thorough");
         crate::missed_corr::cases_c02(&mut o, &mut r, tier == "thorough");
+        crate::vertical_corr::cases(&mut o, &mut r, tier == "thorough");
+        crate::budgets_corr::cases_c02(&mut o, &mut r, tier == "thorough");
     }
     o.finish(out, jobs_n())
 }
